@@ -18,8 +18,10 @@
 #include <unifex/defer.hpp>
 #include <unifex/just.hpp>
 #include <unifex/just_done.hpp>
+#include <unifex/just_error.hpp>
 #include <unifex/just_void_or_done.hpp>
 #include <unifex/let_done.hpp>
+#include <unifex/let_error.hpp>
 #include <unifex/let_value_with.hpp>
 #include <unifex/let_value_with_stop_source.hpp>
 #include <unifex/sequence.hpp>
@@ -63,8 +65,21 @@ auto impl(type_list<Result...> /*unused*/, Senders&&... senders) {
                    return just_void_or_done(false);
                  };
 
+                 // a sender that completes with done or error first claims the
+                 // result slot, so that the value of a lagging sender is
+                 // discarded
+                 auto claim_done = [&onceFlag]() noexcept {
+                   std::call_once(onceFlag, []() noexcept {});
+                   return just_done();
+                 };
+                 auto claim_error = [&onceFlag](auto&& error) noexcept {
+                   std::call_once(onceFlag, []() noexcept {});
+                   return just_error(static_cast<decltype(error)>(error));
+                 };
                  return when_all(
-                            (std::move(senders) | let_value(store_result))...) |
+                            (std::move(senders) | let_done(claim_done) |
+                             let_error(claim_error) |
+                             let_value(store_result))...) |
                      let_done([&optResult]() noexcept {
                           return just_void_or_done(optResult.has_value());
                         }) |
